@@ -342,10 +342,11 @@ def _between_ok(I, tag, limits, on_num):
 
 # ---- *_at ---------------------------------------------------------------------------------------------
 
-def cache_variants(branch, kind, fill):
-    """abstract cache states for the interpolator field"""
+def cache_variants(branch, kind, fill, ci=None):
+    """abstract cache states for the interpolator field: instances of the real IsothermInterpolator class (so that helper methods a
+    refactoring adds to it are interpreted) whose interpolating function is the opaque callable CACHED"""
     def mk(b, k, f):
-        return Obj(kind="CachedInterp", label="cached", attrs={
+        return Obj(cls=ci, kind=None if ci is not None else "CachedInterp", label="cached", attrs={
             "interp_branch": b, "interp_kind": k, "interp_fill": f, "interp_fun": Opaque("CACHED", callable_=True)})
     return {
         "absent": None,
@@ -364,13 +365,14 @@ def cache_discipline(ctx, E, s, prop="C03"):
     fla = E.model.func(f"{PI}.loading_at")
     fpa = E.model.func(f"{PI}.pressure_at")
     I.libmeth[("CachedInterp", "__call__")] = lambda I, v, a, k, n: I.apply_opaque(v.attrs["interp_fun"], a, k, n)
+    ci_interp = E.model.cls(II)
     x = Num.atom("x")
     n = 0
     for which, fi, field in (("loading_at", fla, "l_interpolator"), ("pressure_at", fpa, "p_interpolator")):
         for branch, kind, fill in [("ads", "linear", None), ("des", "cubic", None), ("ads", "linear", Num.const(0)), ("des", "linear", "extrapolate")]:
-            for cname, cobj in cache_variants(branch, kind, fill).items():
+            for cname, cobj in cache_variants(branch, kind, fill, ci_interp).items():
                 kw = {"branch": branch, "interpolation_type": kind, "interp_fill": fill}
-                res = E.run(fi, lambda: mk_point_isotherm(I, s, cache={field: cache_variants(branch, kind, fill)[cname]}), [x], kw)
+                res = E.run(fi, lambda: mk_point_isotherm(I, s, cache={field: cache_variants(branch, kind, fill, ci_interp)[cname]}), [x], kw)
                 for oc, obj in res:
                     n += 1
                     xs, ys = ("P", "L") if which == "loading_at" else ("L", "P")
@@ -808,6 +810,10 @@ def run(ctx: Ctx):
     r_split(ctx, model)
     r_order(ctx, model)
     r_scale(ctx, model)
+    from ..sites import conversions_drop_caches
+    ctx.rule("R-cache (conversions): every permanent conversion drops both interpolator caches unconditionally, so that an accessor used "
+             "before and after a conversion agrees with the converted data")
+    conversions_drop_caches(ctx, model, "C03", "R-cache")
     Engine(ctx.root)
     jobs = max(1, ctx.jobs)
     k = jobs if ctx.tier == "thorough" else min(jobs, 4)
